@@ -456,6 +456,20 @@ func main() {
 	}
 	fa, d2 = small, 4
 	gen2(nil)
+	// (4) depth-6 scripts over three single-chunk sessions and unregister: session ids re-used after the peer
+	// unregistered and reconnected
+	reuse := []op{
+		{K: oReq, Peer: "p", SID: 1, MaxNum: 1, MaxSize: 1 << 40, Chunks: 1},
+		{K: oReq, Peer: "p", SID: 2, MaxNum: 1, MaxSize: 1 << 40, Chunks: 1},
+		{K: oReq, Peer: "p", SID: 3, MaxNum: 1, MaxSize: 1 << 40, Chunks: 1},
+		{K: oUnreg, Peer: "p"},
+	}
+	d6 := 6
+	if !quick {
+		d6 = 7
+	}
+	gen(nil, reuse, d6, 1)
+	nLong = len(progs)
 	fa, d2 = alphabet(true), 2
 	if !quick {
 		d2 = 3
